@@ -268,12 +268,122 @@ def parallel_big(run, drv, count):
         random_history(run, drv, run.rng.randint(4, 10), 0.15, 0.0, True, big_requests=True)
 
 
+def scenarios(run, prop):
+    """Histories outside the alphabet of the model (files removed behind the cache's back, old local sources, the
+    same URI twice in one request), judged by the clauses of the property only: every returned path exists and holds
+    the bytes of its resource, nothing is returned for a URI that could not be fetched."""
+    import os
+    import shutil
+    import tempfile
+    import time as _t
+    common.use_repo_source()
+    from ocean_science_utilities.filecache.cache_object import FileCache
+    from ocean_science_utilities.filecache import remote_resources as rr
+
+    store = {}
+
+    class Mem(rr.RemoteResource):
+        URI_PREFIX = "mem://"
+
+        def download(self):
+            def dl(uri, filepath):
+                if uri not in store:
+                    raise rr._RemoteResourceUriNotFound(uri)
+                with open(filepath, "wb") as fh:
+                    fh.write(store[uri])
+                return True
+            return dl
+
+    def check_paths(what, uris, paths, cache_dir, may_omit=()):
+        got = dict(zip([u for u in uris if u not in may_omit], paths)) if len(paths) != len(uris) else dict(zip(uris, paths))
+        for u, pth in got.items():
+            if not os.path.exists(pth):
+                run.violation(what + ": a returned path does not exist", dict(uri=u, path=os.path.basename(pth)))
+            elif u in store and open(pth, "rb").read() != store[u]:
+                run.violation(what + ": a returned file does not hold the bytes of its resource", dict(uri=u, size=os.path.getsize(pth)))
+
+    root = tempfile.mkdtemp(prefix="osu_scen_")
+    try:
+        if prop == "C18":
+            # (1) a cache file deleted behind the cache's back: the next request raises or fetches again; it never serves a placeholder
+            for reopen in (False, True):
+                run.case("scenario_deleted_behind", key=reopen)
+                cdir = os.path.join(root, f"del{int(reopen)}")
+                os.makedirs(cdir)
+                store.clear(); store.update({"mem://a": b"A" * 300, "mem://b": b"B" * 200})
+                c = FileCache(path=cdir, size_GB=1e-5, resources=[Mem()], parallel=False)
+                c.disable_progress_bar = True
+                (pa,) = c["mem://a"]
+                c["mem://b"]
+                os.remove(pa)
+                if reopen:
+                    c = FileCache(path=cdir, size_GB=1e-5, resources=[Mem()], parallel=False)
+                    c.disable_progress_bar = True
+                try:
+                    out = c[["mem://a", "mem://b"]]
+                except Exception:
+                    run.count("deleted_behind_raises")
+                    continue
+                check_paths("file deleted behind the cache", ["mem://a", "mem://b"], out, cdir)
+            # (2) old local source files (file://): eviction by recency of use, never a file of the current request
+            run.case("scenario_old_local_files", key=0)
+            src = os.path.join(root, "archive"); cdir = os.path.join(root, "loc")
+            os.makedirs(src); os.makedirs(cdir)
+            uris = {}
+            for name, stamp in (("a", 1.0e9), ("b", 1.1e9), ("c", 0.9e9), ("d", 0.8e9)):
+                pth = os.path.join(src, name + ".dat")
+                with open(pth, "wb") as fh:
+                    fh.write(name.encode() * 1000)
+                os.utime(pth, (stamp, stamp))
+                uris[name] = "file://" + pth
+                store[uris[name]] = name.encode() * 1000
+            c = FileCache(path=cdir, size_GB=2500 / 1e9, resources=[rr.RemoteResourceLocal()], parallel=False)
+            c.disable_progress_bar = True
+            for seq in (["a"], ["b"], ["a"], ["c"], ["a", "d"], ["b", "c"]):
+                _t.sleep(0.02)
+                req = [uris[k] for k in seq]
+                try:
+                    out = c[req]
+                except Exception as ex:
+                    run.violation("old local files: the request raised", dict(request=seq, error=repr(ex)[:200]))
+                    break
+                check_paths("old local files", req, out, cdir)
+        else:
+            # the same unretrievable URI twice in one tolerant request
+            for par in (False, True):
+                run.case("scenario_duplicate_missing", key=par)
+                cdir = os.path.join(root, f"dup{int(par)}")
+                os.makedirs(cdir)
+                store.clear(); store.update({"mem://a": b"A" * 300, "mem://b": b"B" * 200})
+                c = FileCache(path=cdir, size_GB=1e-5, resources=[Mem()], parallel=par, allow_for_missing_files=True)
+                c.disable_progress_bar = True
+                for req in (["mem://a", "mem://gone", "mem://b", "mem://gone"], ["mem://gone", "mem://gone"], ["mem://a", "mem://a", "mem://gone"]):
+                    try:
+                        out = c[req]
+                    except Exception as ex:
+                        run.count("duplicate_request_raises")
+                        continue
+                    for pth in out:
+                        if not os.path.exists(pth):
+                            run.violation("a tolerant request returned a path for a URI that could not be fetched (no file behind it)",
+                                          dict(request=req, returned=len(out), path=os.path.basename(pth)))
+                    want = [store[u] for u in req if u in store]
+                    have = [open(pth, "rb").read() for pth in out if os.path.exists(pth)]
+                    if sorted(set(have)) != sorted(set(want)):
+                        run.violation("a tolerant request with a repeated missing URI does not return exactly the files of the retrievable URIs",
+                                      dict(request=req, returned=len(out)))
+    finally:
+        shutil.rmtree(root, ignore_errors=True)
+
+
 def main(prop, tier, seed):
     run = common.Run(prop, tier, seed)
     aud = common.audit(prop, thorough=(tier == "thorough"))
     drv = common.Driver()
     try:
         thorough = tier == "thorough"
+        with common.guard(run, "scenarios"):
+            scenarios(run, prop)
         if prop == "C18":
             exhaustive(run, drv, 2, sizes=(45, 90, 1000), modes=(False, True))
             exhaustive(run, drv, 3, sizes=(45, 90, 1000) if thorough else (90,),
